@@ -47,7 +47,7 @@ def main():
     files = []
     for root, _, fns in os.walk(d):
         for fn in sorted(fns):
-            if fn.endswith(".diff") and fnmatch.fnmatch(fn, glob):
+            if fn.endswith(".diff") and (fnmatch.fnmatch(fn, glob) or fnmatch.fnmatch(os.path.relpath(os.path.join(root, fn), d), glob)):
                 files.append(os.path.join(root, fn))
     props = claimed()
     nbad = 0
